@@ -33,7 +33,7 @@ def _case(draw, worlds):
                    'damping': draw(st.sampled_from([0.003, 0.03, 0.3, 3.0])), 'factor_decay': draw(st.sampled_from([0.95, 0.5])),
                    'kl_clip': kl, 'lr': lr},
             'steps': draw(st.integers(1, 4)), 'update': 'noise', 'data_seed': draw(st.integers(0, 9999)),
-            'zero_to_none': draw(st.booleans()),
+            'zero_to_none': draw(st.booleans()), 'inspect': draw(st.sampled_from([False, False, True])),
             'schedule': draw(st.lists(st.integers(0, 63), max_size=100))}
 
 
@@ -178,7 +178,8 @@ class C07(Prop):
         labels = {'W': W, 'multi_rank': W > 1, 'method': case['method'], 'prediv': case['prediv'],
                   'strategy': 'COMM' if case['k'] == W else 'MEM' if case['k'] == 1 else 'HYBRID',
                   'kl_kind': 'table' if isinstance(case['hp']['kl_clip'], dict) else str(case['hp']['kl_clip'] is None and 'None' or 'const'),
-                  'live_hp': any(isinstance(case['hp'][k], dict) and 'live' in case['hp'][k] for k in ('kl_clip', 'lr'))}
+                  'live_hp': any(isinstance(case['hp'][k], dict) and 'live' in case['hp'][k] for k in ('kl_clip', 'lr')),
+                  'inspect': bool(case.get('inspect'))}
         unclipped = copy.deepcopy(case)
         unclipped['hp']['kl_clip'] = 1e30
 
